@@ -218,6 +218,14 @@ func (t tamper) apply(data []byte, donor []byte, rng *vh.Rand) []byte {
 		return append(append([]byte(nil), data...), rng.Bytes(t.Len)...)
 	case "replace":
 		return append([]byte(nil), donor...)
+	case "field-from-donor":
+		// one field (t.Len bytes at t.Off) taken from the corresponding
+		// message of another handshake whose session is still live
+		m := append([]byte(nil), data...)
+		if t.Off+t.Len <= len(m) && t.Off+t.Len <= len(donor) {
+			copy(m[t.Off:t.Off+t.Len], donor[t.Off:t.Off+t.Len])
+		}
+		return m
 	}
 	return data
 }
@@ -539,6 +547,42 @@ func genC02(r *vh.Runner) {
 							runTamper(r, c, w, id, tamper{Hidden: ms.hidden, Msg: mt, Name: msgNames[mt], Kind: "replace"}, d, rng)
 						}
 						swapRun(r, c, w, id, ms.hidden, mt)
+					}
+					// single fields taken from a handshake whose session stays up:
+					// the session identifier, and windows anywhere in the message
+					liveCl, liveEP := w.NewClient(id, ms.hidden, 3*time.Second)
+					live := &capture{msgs: map[byte][]byte{}}
+					laddr := liveEP.Source()
+					w.Net.SetPolicy(func(d *simnet.Datagram) []simnet.Delivery {
+						if (sameAddr(d.Src, laddr) || sameAddr(d.Dst, laddr)) && len(d.Data) > 0 {
+							if _, seen := live.msgs[d.Data[0]]; !seen {
+								live.msgs[d.Data[0]] = append([]byte(nil), d.Data...)
+							}
+						}
+						return passAll(d)
+					})
+					lres := runHandshake(liveCl)
+					w.Net.SetPolicy(nil)
+					defer liveCl.Close()
+					bub.Settle(50 * time.Millisecond)
+					drainAccept(w) // the live session's own handle is not the tampered flow's
+					if lres.Err == nil {
+						for _, mt := range ms.msgs {
+							d, ok := live.msgs[mt]
+							if !ok {
+								continue
+							}
+							fields := [][2]int{{4, 4}, {4, 8}, {8, 4}}
+							for k := 0; k < 3; k++ {
+								ln := rng.Pick(4, 16, 32)
+								if len(d) > ln+4 {
+									fields = append(fields, [2]int{4 + rng.Intn(len(d)-ln-4), ln})
+								}
+							}
+							for _, f := range fields {
+								runTamper(r, c, w, id, tamper{Hidden: ms.hidden, Msg: mt, Name: msgNames[mt], Kind: "field-from-donor", Off: f[0], Len: f[1]}, d, rng)
+							}
+						}
 					}
 					honest(r, c, w, id, ms.hidden, nil)
 					if rep == 0 {
